@@ -271,7 +271,7 @@ def selftest() -> None:
         "52dba8e7e4bd80bd7d868a3ae78749de"
     )
     assert unwrap(key, wrapped, 1) == auth_frame
-    status = _h("06100950 0026 0001 000000000000 00faaaaaaaaa affe 26156db5c749888f a373c3e0b4bde4497c395e4b1c2f46a1".replace(" ", ""))
+    status = _h("06100950 002e 0001 000000000000 00faaaaaaaaa affe 26156db5c749888f a373c3e0b4bde4497c395e4b1c2f46a1".replace(" ", ""))
     assert unwrap(key, status, 1) == _h("0610095400080000")
     # AN159 secured routing indication (multicast, session id 0)
     bkey = _h("000102030405060708090a0b0c0d0e0f")
